@@ -12,6 +12,7 @@ CONSTANTS
   Modes = {"receptor", "dns"}
   StreamSrcs <- StreamSrcsQuick
   MaxTick = 1
+  KF_LookupMutatesStored = FALSE
   KF_TimeFrozenAtCreation = FALSE
   KF_DigestCachedAcrossCalls = TRUE
   KF_ColonSplit = FALSE
